@@ -151,7 +151,7 @@ Definition ex_w : rows :=
          [mkEqptRow "I" "B" (mkAmpRow (Some "std_low_gain"%string) (Some 12%Q) None (Some (-1)%Q) None None)
                             (mkAmpRow (Some "fused"%string) None None None None None);
           mkEqptRow "A" "I" blank_amp (mkAmpRow None (Some 20%Q) None None None None)]
-         [mkRoadmRow "A" "I" (Some (-18.5)%Q) None].
+         [mkRoadmRow "A" "I" (Some (-18.5)%Q) None (Some "F"%string) (CStr "0")].
 Example ex_wellformed : wellformed ex_w.
 Proof.
   constructor.
